@@ -18,7 +18,7 @@ from .. import iplotread as ipr
 
 INVARIANTS = ["TypeOK", "ExactlyOnce", "NothingEmpty", "Placement", "Styles", "Points", "Shape"]
 
-BASE = dict(Sizes=[2, 2, 2], Mode="lines", MaxMapped=2, Fuse=False, MaskFam="all", XVar=False,
+BASE = dict(Sizes=[2, 2, 2], Mode="lines", MaxMapped=2, Fuse=False, MaskFam="all", XVar=False, XDeps=["all"],
             Orders=["none"], Joins=[False], Aggs=["none"], Methods=["median"], Errs=["q"], Pals=[False],
             Dens=[True], Bins=["na"], HistAll=False, Stride=1, Sub=1, Seed=0, Bug="none")
 
@@ -31,7 +31,8 @@ O3 = ["none", "rev", "sub"]
 B2 = [False, True]
 M2 = ["median", "mean"]
 E3 = ["q", "std", "stderr"]
-BINS = ["auto", "n4", "nN", "e1", "e3", "eu"]      # eu: explicit, unequally spaced edges
+BINS = ["auto", "n4", "nN", "e1", "e3", "eu", "en"]   # eu: explicit unequal edges; en: explicit edges narrower than the data
+XD3 = ["all", "line", "one"]                             # dims of the x variable
 
 
 def configs(tier):
@@ -58,9 +59,9 @@ def configs(tier):
     # --- lines
     add("L2", (1, 919), (1, 37), Sizes=[3, 3], MaxMapped=1, Orders=O3, Joins=B2, Pals=B2)
     add("L3", (1, 2521), (1, 83), Sizes=[2, 2, 2], MaxMapped=2, Fuse=True, Orders=O3, Joins=B2, Pals=B2)
-    add("L3x", (1, 19993), (1, 953), Sizes=[2, 2, 2], MaxMapped=2, XVar=True, Orders=O3, Joins=B2, Pals=[False])
+    add("L3x", (1, 49999), (1, 2857), Sizes=[2, 2, 2], MaxMapped=2, XVar=True, XDeps=XD3, Orders=O3, Joins=B2, Pals=[False])
     add("L4", (9, 2503), (1, 859), Sizes=[3, 2, 3, 2], MaxMapped=3, Fuse=True, MaskFam="struct", Orders=O3, Joins=B2, Pals=B2)
-    add("L4x", (19, 100003), (1, 54269), Sizes=[2, 3, 2, 3], MaxMapped=3, Fuse=True, MaskFam="struct", XVar=True, Orders=O3, Joins=B2)
+    add("L4x", (19, 300007), (1, 162811), Sizes=[2, 3, 2, 3], MaxMapped=3, Fuse=True, MaskFam="struct", XVar=True, XDeps=XD3, Orders=O3, Joins=B2)
     add("L4g", (3, 10007), (1, 971), Sizes=[2, 3, 2, 3], MaxMapped=2, Fuse=True, MaskFam="struct", Orders=["none", "sub"], Joins=B2,
         Aggs=["all", "one"], Methods=M2, Errs=E3)
     add("L5", (47, 5003), (2, 6007), Sizes=[2, 3, 2, 2, 3], MaxMapped=mm, Fuse=True, MaskFam="struct", Orders=O3, Joins=B2, Pals=B2)
@@ -75,10 +76,10 @@ def configs(tier):
         Aggs=["auto", "all"], Methods=M2, Pals=B2)
     # --- histograms
     add("G2", (1, 6323), (1, 203), Sizes=[3, 3], Mode="hist", MaxMapped=1, Orders=O3, Dens=B2, Bins=BINS, Pals=B2)
-    add("G3", (5, 4001), (1, 899), Sizes=[2, 3, 3], Mode="hist", MaxMapped=2, Fuse=True, MaskFam="struct", Orders=O3, Dens=B2, Bins=BINS, Pals=B2)
+    add("G3", (5, 4663), (1, 899), Sizes=[2, 3, 3], Mode="hist", MaxMapped=2, Fuse=True, MaskFam="struct", Orders=O3, Dens=B2, Bins=BINS, Pals=B2)
     if HIST_ALL_MAPPED:
-        add("G2a", (1, 1009), (1, 97), Sizes=[3, 2], Mode="hist", MaxMapped=2, HistAll=True, Orders=O3, Dens=B2, Bins=BINS)
-    add("G4", (113, 4001), (4, 4001), Sizes=[2, 3, 2, 3], Mode="hist", MaxMapped=3, Fuse=True, MaskFam="struct", Orders=O3, Dens=B2, Bins=BINS)
+        add("G2a", (1, 1171), (1, 97), Sizes=[3, 2], Mode="hist", MaxMapped=2, HistAll=True, Orders=O3, Dens=B2, Bins=BINS)
+    add("G4", (113, 4663), (4, 4001), Sizes=[2, 3, 2, 3], Mode="hist", MaxMapped=3, Fuse=True, MaskFam="struct", Orders=O3, Dens=B2, Bins=BINS)
     return L
 
 
@@ -98,9 +99,9 @@ def exhaustive_configs(tier):
     if tier == "thorough":
         add("XL2", False, Sizes=[2, 2, 2], MaxMapped=2, Fuse=True, Orders=O3, Joins=B2)
         add("XLg", False, Sizes=[2, 2, 2], MaxMapped=1, Orders=["none", "sub"], Joins=B2, Aggs=["all"], Methods=M2)
-        add("XLx", False, Sizes=[2, 3], MaxMapped=1, XVar=True, Orders=O3, Joins=B2)
+        add("XLx", False, Sizes=[2, 3], MaxMapped=1, XVar=True, XDeps=XD3, Orders=O3, Joins=B2)
         add("XH2", False, Sizes=[2, 2, 2], Mode="heat", MaxMapped=1, Orders=O3, Aggs=["auto"])
-        add("XG2", False, Sizes=[2, 2, 2], Mode="hist", MaxMapped=2, Orders=["none", "sub"], Dens=B2, Bins=["auto", "n4", "eu"])
+        add("XG2", False, Sizes=[2, 2, 2], Mode="hist", MaxMapped=2, Orders=["none", "sub"], Dens=B2, Bins=["n4", "eu", "en"])
     return L
 
 
@@ -128,7 +129,7 @@ def total_cases(c):
     nmask = 2 ** ncells if c["MaskFam"] == "all" else 1 + 9 * ncells
     nx = 1 + 3 * ncells if c["XVar"] else 1
     tot = nmask * nx
-    for k in ("Joins", "Aggs", "Methods", "Errs", "Pals", "Dens", "Bins", "Orders"):
+    for k in ("Joins", "Aggs", "Methods", "Errs", "Pals", "Dens", "Bins", "Orders", "XDeps"):
         tot *= len(c[k])
     return tot
 
